@@ -31,6 +31,7 @@ def run_property(prop, tier='quick', root='/repo', overlay=None, quiet=False, wr
         mod.run(ctx)
         if tier == 'thorough' and hasattr(mod, 'run_thorough'):
             mod.run_thorough(ctx)
+        ctx.check_unrecognised()
         ctx.check_floors()
     except AnalysisError as exc:
         err = exc
